@@ -67,6 +67,15 @@ DEGENERATE = ['=', '==', '=()', '=(', '=)', '=-', '=+', '=%', '=""', '="', "='",
               '=' + '(' * 80, '=' + ')' * 80, '=' + '"' * 7, '=SUM(' * 30, '=' + 'IF(' * 20 + '1' + ',2,3)' * 19]
 
 
+# areas spelled in an unusual corner order or anchoring, in every argument position that takes an area
+ODD_AREAS = ['C1:A1', 'A3:A1', 'C3:A1', 'A3:C1', 'C1:A3', 'C:A', 'B:A', '$C$1:$A$1', 'C$3:$A1', 'A1:A1', 'B2:A1', 'S2!C1:A1', "'S2'!B:A", 'B1:A2', 'E5:D4', 'AA1:Z1', 'AB:AA']
+AREA_USES = ['SUM({a})', 'SUMIF({a},">0")', 'SUMIF({a},">0",{b})', 'SUMIF({b},">0",{a})', 'SUMIFS({a},{b},1)', 'SUMIFS({b},{a},1)', 'COUNTIFS({a},1)', 'COUNTIFS({a},1,{b},2)',
+             'AVERAGEIFS({a},{b},">0")', 'AVERAGEIFS({b},{a},">0")', 'COUNTIF({a},1)', 'VLOOKUP(1,{a},2,FALSE)', 'VLOOKUP(1,{a},1)', 'INDEX({a},1,1)', 'INDEX({a},0,1)',
+             'MATCH(1,{a},0)', 'XMATCH(1,{a})', 'MAX({a})', 'MIN({a},{b})', 'AVERAGE({a})', 'COUNT({a})', 'COUNTBLANK({a})', 'COLUMN({a})', 'AND({a})', 'OR({a})',
+             'IFERROR({a},0)', 'SUM(IFERROR({a},0))', 'CONCATENATE({a})', 'NETWORKDAYS(A1,A2,{a})', 'SUM({a},{b})', '{a}', 'SUM({a})+SUM({b})', 'IF(1,SUM({a}),SUM({b}))']
+ODD_AREA_FORMULAS = ['=' + u.format(a=a, b=b) for u in AREA_USES for a in ODD_AREAS for b in ('A2:C2', 'A:C', 'C2:A2', a)]
+
+
 def soup(rng):
     n = rng.randrange(1, 10)
     parts = []
@@ -385,6 +394,9 @@ def run_shard(shard, ctx):
     if k == 'degenerate':
         items = [(t, 'degenerate') for t in DEGENERATE]
         items += [(f, 'valid') for f in c05.FUNC_FORMULAS]
+        odd = list(dict.fromkeys(ODD_AREA_FORMULAS))
+        rng.shuffle(odd)
+        items += [(f, 'odd-area') for f in odd[:240 if ctx.tier == 'quick' else len(odd)]]
         judge_formulas(ctx, items, 'deg')
         r.sample({'degenerate': DEGENERATE[:12]})
     elif k == 'nest':
